@@ -2,9 +2,9 @@
 (* Trace validation for C34.  Every line is one case evaluated by the real code
    (harness/cmd/rbac): caller, resource, ACL, blueprint actions and what sop.Authorize, sop.CheckPolicy,
    sop.EnforcePolicy, sop.CanPerformAction and sop.ResolveRBACMap returned for every action.  A line is
-   consumed by Evaluate iff the recorded outcome is the one Rbac prescribes.  Cases are independent, so a
-   line whose outcome differs is consumed by TraceBad, which prints <<"BAD", line, expected>>; python
-   reports every such line.                                                                        *)
+   judged by Evaluate iff the recorded outcome is the one Rbac prescribes.  A line whose outcome
+   differs is taken by TraceBad, which prints <<"BAD", line, expected>>; python reports every such
+   line and checks that TLC judged every line (2 distinct states per line).                                                                       *)
 EXTENDS Rbac
 
 VARIABLE l
@@ -29,28 +29,23 @@ EvOut == [authz  |-> [a \in Actions |-> E.res[a].authz],
           policy |-> [a \in Actions |-> E.res[a].can],
           ui     |-> BoolMap(E.ui)]
 
-IsEv(e) == l <= Len(Trace) /\ Trace[l].ev = e /\ l' = l + 1
-
-TraceInit == /\ l = 1 /\ TLCSet(1, 1)
+\* Cases are independent: every line is an initial state of its own and is judged in one step (a chain of
+\* 10^5 lines would cost TLC one BFS level per line).  TLC therefore reports 2 distinct states per line.
+TraceInit == /\ l \in 1..Len(Trace) /\ Trace[l].ev = "Case"
              /\ caller = [roles |-> {}, user |-> "", system |-> FALSE] /\ name = ""
              /\ access = [vis |-> "", owner |-> "", roles |-> <<>>, users |-> <<>>]
              /\ bp = {} /\ out = NoOut /\ pc = "case"
 
-TraceReset == IsEv("Reset") /\ UNCHANGED vars
-
 Good == Consistent /\ EvOut = Expected(EvCaller, E.name, EvAccess, EvBp)
 
-TraceCase == IsEv("Case") /\ Good /\ Evaluate(EvCaller, E.name, EvAccess, EvBp, EvOut)
+TraceCase == /\ pc = "case" /\ Good /\ l' = l
+             /\ Evaluate(EvCaller, E.name, EvAccess, EvBp, EvOut)
 
-TraceBad == /\ IsEv("Case") /\ ~Good
+TraceBad == /\ pc = "case" /\ ~Good /\ l' = l
             /\ PrintT(<<"BAD", l, ToJson(Expected(EvCaller, E.name, EvAccess, EvBp))>>)
-            /\ UNCHANGED vars
+            /\ pc' = "bad" /\ UNCHANGED <<caller, name, access, bp, out>>
 
-TraceNext == TraceReset \/ TraceCase \/ TraceBad
+TraceNext == TraceCase \/ TraceBad
 
 TraceSpec == TraceInit /\ [][TraceNext]_tvars
-
-HighWater == IF l > TLCGet(1) THEN TLCSet(1, l) ELSE TRUE
-TraceAccepted == /\ PrintT(<<"HWM", TLCGet(1) - 1>>)
-                 /\ TLCGet(1) - 1 = Len(Trace)
 =============================================================================
